@@ -225,6 +225,185 @@ func topLevelKeysChecked(rel string) string {
 	return res
 }
 
+// ---- error classification shapes of the old csv reader and the by_rows fixed-length reader -------
+
+// isNotParseErrorIf recognises `if _, ok := err.(*stdcsv.ParseError); !ok { ... }` and returns its body.
+func isNotParseErrorIf(st ast.Stmt) *ast.BlockStmt {
+	ifs, ok := st.(*ast.IfStmt)
+	if !ok || ifs.Init == nil {
+		return nil
+	}
+	as, ok := ifs.Init.(*ast.AssignStmt)
+	if !ok || len(as.Rhs) != 1 || len(as.Lhs) != 2 {
+		return nil
+	}
+	ta, ok := as.Rhs[0].(*ast.TypeAssertExpr)
+	if !ok || !isIdent(ta.X, "err") {
+		return nil
+	}
+	star, ok := ta.Type.(*ast.StarExpr)
+	if !ok {
+		return nil
+	}
+	sel, ok := star.X.(*ast.SelectorExpr)
+	if !ok || sel.Sel.Name != "ParseError" {
+		return nil
+	}
+	un, ok := ifs.Cond.(*ast.UnaryExpr)
+	if !ok || un.Op != token.NOT || exprString(un.X) != exprString(as.Lhs[1]) {
+		return nil
+	}
+	return ifs.Body
+}
+
+func assignsReadErr(b *ast.BlockStmt) bool {
+	for _, st := range b.List {
+		if as, ok := st.(*ast.AssignStmt); ok && len(as.Lhs) == 1 && exprString(as.Lhs[0]) == "r.readErr" {
+			return true
+		}
+	}
+	return false
+}
+
+func returnsReadErr(b *ast.BlockStmt) bool {
+	if len(b.List) == 0 {
+		return false
+	}
+	ret, ok := b.List[len(b.List)-1].(*ast.ReturnStmt)
+	return ok && len(ret.Results) >= 1 && exprString(ret.Results[len(ret.Results)-1]) == "r.readErr"
+}
+
+// csvShapes: (Read returns a latched readErr first, Read latches a non-ParseError, jumpTo latches
+// and returns a non-ParseError)
+func csvShapes(rel string) (string, string, string) {
+	_, f := parseFile(rel)
+	rd := findMethod(f, "Read")
+	jt := findMethod(f, "jumpTo")
+	if rd == nil || jt == nil || rd.Body == nil || jt.Body == nil {
+		die("%s: Read / jumpTo not found", rel)
+	}
+	first := "false"
+	if len(rd.Body.List) > 0 {
+		if ifs, ok := rd.Body.List[0].(*ast.IfStmt); ok && ifs.Init == nil {
+			if c, ok := ifs.Cond.(*ast.BinaryExpr); ok && c.Op == token.NEQ && exprString(c.X) == "r.readErr" && isIdent(c.Y, "nil") && returnsReadErr(ifs.Body) {
+				first = "true"
+			}
+		}
+	}
+	latches := "false"
+	ast.Inspect(rd.Body, func(n ast.Node) bool {
+		if st, ok := n.(ast.Stmt); ok {
+			if b := isNotParseErrorIf(st); b != nil && assignsReadErr(b) {
+				latches = "true"
+			}
+		}
+		return true
+	})
+	// jumpTo: a single for loop; inside it `if err == io.EOF { return io.EOF }` and optionally
+	// `if err != nil { if _, ok := err.(*ParseError); !ok { r.readErr = ...; return r.readErr } }`
+	jump := ""
+	var loop *ast.ForStmt
+	for _, st := range jt.Body.List {
+		if fs, ok := st.(*ast.ForStmt); ok {
+			loop = fs
+		}
+	}
+	if loop == nil {
+		die("%s: jumpTo: no for loop", rel)
+	}
+	sawEOF := false
+	for _, st := range loop.Body.List {
+		ifs, ok := st.(*ast.IfStmt)
+		if !ok {
+			continue
+		}
+		c, ok := ifs.Cond.(*ast.BinaryExpr)
+		if !ok {
+			continue
+		}
+		if c.Op == token.EQL && isIdent(c.X, "err") && isSel(c.Y, "io", "EOF") {
+			sawEOF = true
+			continue
+		}
+		if c.Op == token.NEQ && isIdent(c.X, "err") && isIdent(c.Y, "nil") {
+			jump = "false"
+			for _, in := range ifs.Body.List {
+				if b := isNotParseErrorIf(in); b != nil && assignsReadErr(b) && returnsReadErr(b) {
+					jump = "true"
+				}
+			}
+			if jump == "false" {
+				die("%s: jumpTo: `if err != nil` body shape not recognised", rel)
+			}
+		}
+	}
+	if !sawEOF {
+		die("%s: jumpTo: io.EOF test not found", rel)
+	}
+	if jump == "" {
+		jump = "false" // only io.EOF ends the loop: every other error is ignored
+	}
+	return first, latches, jump
+}
+
+// fixedByRowsCleanEOFOnly: in readByRowsEnvelope the early `return nil, err` (as opposed to the
+// fatal ErrInvalidEnvelope) is taken only for `err == io.EOF && i == 0`.
+func fixedByRowsCleanEOFOnly(rel string) string {
+	_, f := parseFile(rel)
+	fd := findMethod(f, "readByRowsEnvelope")
+	if fd == nil || fd.Body == nil {
+		die("%s: readByRowsEnvelope not found", rel)
+	}
+	res := ""
+	ast.Inspect(fd.Body, func(n ast.Node) bool {
+		ifs, ok := n.(*ast.IfStmt)
+		if !ok || ifs.Init != nil || len(ifs.Body.List) != 1 {
+			return true
+		}
+		ret, ok := ifs.Body.List[0].(*ast.ReturnStmt)
+		if !ok || len(ret.Results) != 2 || !isIdent(ret.Results[0], "nil") || !isIdent(ret.Results[1], "err") {
+			return true
+		}
+		// this is the early return of the raw error: look at its condition
+		conj := map[string]bool{}
+		var walk func(e ast.Expr) bool
+		walk = func(e ast.Expr) bool {
+			switch x := e.(type) {
+			case *ast.ParenExpr:
+				return walk(x.X)
+			case *ast.BinaryExpr:
+				if x.Op == token.LAND {
+					return walk(x.X) && walk(x.Y)
+				}
+				if x.Op == token.EQL && isIdent(x.X, "err") && isSel(x.Y, "io", "EOF") {
+					conj["eof"] = true
+					return true
+				}
+				if x.Op == token.EQL && isIdent(x.X, "i") {
+					if lit, ok := x.Y.(*ast.BasicLit); ok && lit.Value == "0" {
+						conj["i0"] = true
+						return true
+					}
+				}
+			}
+			return false
+		}
+		if !walk(ifs.Cond) {
+			die("%s: readByRowsEnvelope: condition of the raw-error return not recognised", rel)
+		}
+		if conj["eof"] {
+			res = "true"
+		} else {
+			res = "false"
+		}
+		return false
+	})
+	if res == "" {
+		die("%s: readByRowsEnvelope: raw-error return not found", rel)
+	}
+	return res
+}
+
 // schemaConst loads the JSON text of a compiled-in JSON-schema constant.
 func schemaConst(rel, name string) map[string]interface{} {
 	_, f := parseFile(rel)
@@ -293,6 +472,11 @@ func genSafety() string {
 		{"fixed", ff + "fixedlength/format.go"}, {"fixed2", ff + "flatfile/fixedlength/format.go"}} {
 		fmt.Fprintf(&sb, "Definition %s_unmarshal_checked : bool := %s.\n", x.name, unmarshalChecked(x.rel))
 	}
+	c1, c2, c3 := csvShapes(ff + "csv/reader.go")
+	fmt.Fprintf(&sb, "Definition csv_read_returns_latched_first : bool := %s.\n", c1)
+	fmt.Fprintf(&sb, "Definition csv_read_latches_non_parse_error : bool := %s.\n", c2)
+	fmt.Fprintf(&sb, "Definition csv_jumpto_fails_on_non_parse_error : bool := %s.\n", c3)
+	fmt.Fprintf(&sb, "Definition fixed_by_rows_raw_error_only_clean_eof : bool := %s.\n", fixedByRowsCleanEOFOnly(ff+"fixedlength/reader.go"))
 	fmt.Fprintf(&sb, "Definition schema_validate_checks_top_level_keys : bool := %s.\n", topLevelKeysChecked("validation/jsonvalidate.go"))
 	csv := schemaConst(vd+"csvFileDeclaration.go", "JSONSchemaCSVFileDeclaration")
 	csv2 := schemaConst(vd+"csv2FileDeclaration.go", "JSONSchemaCSV2FileDeclaration")
